@@ -45,9 +45,16 @@ class CallMixin(object):
                 for st1, args in self.ev_list(e.args, st):
                     res.extend(self.apply_fn(fv, args, st1, e))
                 return res
+            cs = getattr(self.reg, "callable_sorts", {}).get(fv.ty.name) if isinstance(fv.ty, U) else None
+            if cs is not None:
+                return self.call_with_args(cs, fv, e, st)
             raise OutsideSubset("call of value of type %r" % (fv.ty,))
         if isinstance(f, ast.Attribute):
             d = self.dotted(f, st)
+            if d is not None and isinstance(f.value, ast.Attribute):
+                dv = self.dotted(f.value, st)
+                if dv is not None and (getattr(self.reg, "dotted_globals", {}).get(dv) in st.glob or self.module_constant(dv, st) is not None):
+                    d = None        # method call on a module-qualified global / constant
             if d is not None:
                 ext = self.reg.externals.get(d)
                 if ext is None:
@@ -137,7 +144,16 @@ class CallMixin(object):
 
     def call_external(self, ext, e, st):
         if ext == "drop":
-            return [(st, NONEV)]
+            # the call itself has no effect, but its arguments are evaluated (they may call things that raise)
+            mark, n_obl = len(self.raised), len(self.obls)
+            try:
+                outs = self.ev_list(list(e.args) + [k.value for k in e.keywords], st)
+                return [(st1, NONEV) for st1, _ in outs]
+            except OutsideSubset as ex:
+                del self.raised[mark:]
+                del self.obls[n_obl:]
+                self.notes.append("arguments of dropped call %s not evaluated (%s)" % (ast.unparse(e.func), str(ex.args[0])[:80]))
+                return [(st, NONEV)]
         return self.call_with_args(ext, None, e, st)
 
     def call_with_args(self, c, recv, e, st):
@@ -219,6 +235,10 @@ class CallMixin(object):
                 post.env["exc"] = exc
                 post.heap, post.glob, post.old = rs.heap, rs.glob, pre
                 post.pc = rs.pc
+                for gname, (gty, _init) in list(c.ghosts.items()) + list(c.ghost_final.items()):
+                    gv = fresh(gty, gname)
+                    rs.assume(*wf(gv))
+                    post.env[gname] = gv
                 self._rebind_inout(c, rs, post, bound, node)
                 for text in c.ensures_raise.get(ename, []):
                     rs.assume(self.spec_bool(text, post))
